@@ -39,7 +39,8 @@ TARGETS = {
     "taskiq/cli/worker/process_manager.py": ["C17", "C18"],
     "taskiq/api/receiver.py": ["C03", "C04"],
     "taskiq/api/scheduler.py": ["C15"],
-    "taskiq/cli/worker/run.py": ["C05", "C03"],
+    "taskiq/cli/worker/run.py": ["C05", "C03", "C02", "C04", "C08", "C12"],
+    "taskiq/cli/worker/args.py": ["C02", "C05", "C04", "C12", "C08"],
     "taskiq/abc/broker.py": ["C01", "C09", "C10", "C08", "C12"],
     "taskiq/utils.py": ["C10", "C16", "C12"],
     "taskiq/formatters/proxy_formatter.py": ["C08", "C09"],
